@@ -2357,24 +2357,6 @@ static srtp_err_status_t srtp_unprotect_aead(srtp_ctx_t *ctx,
         memcpy(rtp, srtp, enc_start);
     }
 
-    /*
-     * update the key usage limit, and check it to make sure that we
-     * didn't just hit either the soft limit or the hard limit, and call
-     * the event handler if we hit either.
-     */
-    switch (srtp_key_limit_update(session_keys->limit)) {
-    case srtp_key_event_normal:
-        break;
-    case srtp_key_event_soft_limit:
-        srtp_handle_event(ctx, stream, event_key_soft_limit);
-        break;
-    case srtp_key_event_hard_limit:
-        srtp_handle_event(ctx, stream, event_key_hard_limit);
-        return srtp_err_status_key_expired;
-    default:
-        break;
-    }
-
     if (cryptex_inuse) {
         status = srtp_cryptex_unprotect(cryptex_inplace, hdr, rtp,
                                         session_keys->rtp_cipher);
@@ -2399,6 +2381,24 @@ static srtp_err_status_t srtp_unprotect_aead(srtp_ctx_t *ctx,
                             enc_octet_len, rtp + enc_start, &enc_octet_len);
     if (status) {
         return status;
+    }
+
+    /*
+     * the packet is authentic: update the key usage limit, and check it to
+     * make sure that we didn't just hit either the soft limit or the hard
+     * limit, and call the event handler if we hit either.
+     */
+    switch (srtp_key_limit_update(session_keys->limit)) {
+    case srtp_key_event_normal:
+        break;
+    case srtp_key_event_soft_limit:
+        srtp_handle_event(ctx, stream, event_key_soft_limit);
+        break;
+    case srtp_key_event_hard_limit:
+        srtp_handle_event(ctx, stream, event_key_hard_limit);
+        return srtp_err_status_key_expired;
+    default:
+        break;
     }
 
     if (hdr->x == 1 && session_keys->rtp_xtn_hdr_cipher) {
